@@ -249,10 +249,10 @@ class C02(Check):
     def budget(self, tier):
         k = 1 if tier == 'quick' else 40
         return {'random_docs': 1500 * k, 'structname_torture': 400 * k, 'single_freedom': 600 * k,
-                'typedef_in_comment': 20 * k, 'name_reuse': 150 * k}
+                'typedef_in_comment': 20 * k, 'name_reuse': 150 * k, 'format_words': 200 * k}
 
     # ------------------------------------------------------------------ gen
-    def gen_doc(self, rng, torture=False, like=None):
+    def gen_doc(self, rng, torture=False, like=None, p_words=0.12):
         """like: another document whose structure names and column names are reused (with freshly drawn types)."""
         ntab = rng.randint(1, 3) if like is None else len(like['tables'])
         names = [] if like is None else [t['name'] for t in like['tables']]
@@ -309,8 +309,15 @@ class C02(Check):
                     cols.append({'name': cn, 'type': kind, 'alen': 0, 'clen': 0})
             if not cols:
                 cols = [{'name': 'x', 'type': 'int', 'alen': 0, 'clen': 0}]
+            if p_words > 0.5:
+                # room for the whole words, mostly string columns, more rows
+                for c in cols:
+                    if c['type'] in ('short', 'int', 'long') and not c['alen'] and rng.random() < 0.5:
+                        c['type'], c['clen'] = 'char', 24
+                    if c['type'] == 'char' and c['clen'] > 0:
+                        c['clen'] = 24
             rows = []
-            for r in range(rng.randint(1, 5)):
+            for r in range(rng.randint(1, 5) if p_words <= 0.5 else rng.randint(3, 8)):
                 row = []
                 for c in cols:
                     def one(in_array):
@@ -324,6 +331,11 @@ class C02(Check):
                             return float(np.float32(v)) if typ == 'float' else v
                         if typ == 'char':
                             s = rstr(rng, c['clen'] if c['clen'] > 0 else 10)
+                            if rng.random() < p_words:
+                                # the format's own vocabulary as cell text (F-Y7, F-Y8): just text inside a data row
+                                s = rng.choice(M.FORMAT_WORDS)
+                                if c['clen'] > 0:
+                                    s = s[:c['clen']]
                             if in_array:
                                 s = s.replace('}', ')')
                             return s
@@ -378,7 +390,8 @@ class C02(Check):
                 R = Renderer(rng.getrandbits(32), {'blank_runs', 'trailing_comment'})
                 docs.append({'doc': d, 'text': R.render(d), 'mode': rng.choice(['path', 'text', 'binary']), 'raw': rng.random() < 0.3})
             return {'kind': cls, 'sequence': docs}
-        doc = self.gen_doc(rng, torture=(cls == 'structname_torture'))
+        # class format_words: most string cells are the format's own vocabulary (definition words, brace groups, statement ends)
+        doc = self.gen_doc(rng, torture=(cls == 'structname_torture'), p_words=0.7 if cls == 'format_words' else 0.12)
         rend = []
         for k in range(2):
             seed = rng.getrandbits(32)
